@@ -58,7 +58,7 @@ def gen_plan(rng, tier, index):
     rng.shuffle(events)
     plan = {'mode': mode, 'shape': shape, 'bits': bits, 'radius': rng.pick(RADII), 'threshold': rng.pick(THRESH),
             'events': events, 'method': rng.pick(['euclidean', 'correlation', 'euclidean', 'correlation', 'mahalanobis', 'crossnobis', 'poisson']),
-            'mask_dtype': rng.pick(['bool', 'bool', 'int8', 'float64', 'int64']), 'events_as': rng.pick(['list', 'array']),
+            'mask_dtype': rng.pick(['bool', 'bool', 'int8', 'float64', 'int64']), 'containers': rng.pick([0, 0, 1, 2, 3, 4]), 'events_as': rng.pick(['list', 'array']),
             'sched': {'n_jobs': rng.pick([1, 2, 3, 4, 8, 16, -1]), 'batch': rng.randint(1, 4),
                       'policy': rng.pick(['random', 'random', 'lifo', 'fifo']),
                       'straggler': rng.pick([None, None, 0, 1, 5]), 'seed': rng.randrange(10 ** 9)},
@@ -246,10 +246,16 @@ def ref_rdm(data, cols, events, method):
     return np.array(out)
 
 
-def check_rdms(ctx, data, centers, neighbors, events, method):
+def check_rdms(ctx, data, centers, neighbors, events, method, containers=0):
     from rsatoolbox.util.searchlight import get_searchlight_RDMs
+    c_arg, n_arg = centers, neighbors
+    if containers % 3 == 1:
+        c_arg = [int(c) for c in np.asarray(centers).ravel()]                       # plain lists instead of arrays
+        n_arg = [[int(v) for v in np.asarray(nb).ravel()] for nb in neighbors]
+    elif containers % 3 == 2:
+        n_arg = tuple(np.asarray(nb).ravel() for nb in neighbors)
     try:
-        sl = get_searchlight_RDMs(data, centers, neighbors, events, method=method, verbose=False)
+        sl = get_searchlight_RDMs(data, c_arg, n_arg, events, method=method, **({} if containers % 2 else {'verbose': False}))
     except Exception as e:
         if method not in ('euclidean', 'correlation') and any(
                 ref_rdm(data, np.asarray(nb).ravel(), events, method) is None for nb in list(neighbors)[:50]):
@@ -327,7 +333,7 @@ def execute(plan, ctx):
         data = _data(n_obs, V, plan.get('dtype', 'float64'))
         centers = np.array([(i * 7919 + 3) % 100003 for i in range(n)])      # not monotonic
         neighbors = [np.array(sorted({i % V, (i * 3 + 1) % V, (i * 5 + 2) % V, (i // 7) % V})) for i in range(n)]
-        check_rdms(ctx, data, centers, neighbors, events, plan['method'])
+        check_rdms(ctx, data, centers, neighbors, events, plan['method'], containers=plan.get('containers', 0))
         ctx.behaviour('chunk', n, plan['method'], V, plan.get('dtype', 'float64'))
         return
     shape = plan['shape']
@@ -348,7 +354,7 @@ def execute(plan, ctx):
         return
     V = mask.size
     data = _data(n_obs, V, plan.get('dtype', 'float64'))
-    sl = check_rdms(ctx, data, centers, neighbors, events, plan['method'])
+    sl = check_rdms(ctx, data, centers, neighbors, events, plan['method'], containers=plan.get('containers', 0))
     if mode == 'rdm' or sl is None:
         ctx.behaviour('rdm', shape_class, round(plan['radius'], 2), plan['threshold'], plan['method'], len(centers) > 1000)
         return
